@@ -101,12 +101,13 @@ var editOps = map[string]bool{
 func InputCoord(p *core.Prog, r *core.Report, cmds []string) {
 	info := p.Info(core.PkgMain)
 	for _, name := range cmds {
-		fd := p.FuncDecl(core.PkgMain, name)
+		fd := p.CommandFunc(name)
 		fn := "main." + name
 		if fd == nil || fd.Body == nil {
-			r.Und("INPUT-COORD", fn+"|anchor", "-", "anchor-unresolved")
+			r.Und("INPUT-COORD", fn+"|anchor", "-", "anchor-unresolved: no function registered for the command `"+name+"`")
 			continue
 		}
+		fn = "main." + fd.Name.Name
 		r.Fn(fn)
 		asg := core.Assigns(info, fd.Body)
 		fl := core.NewFlow(info, fd.Body)
